@@ -30,16 +30,47 @@ theorem val_cast_of_range {x : ℤ} (h0 : 0 ≤ x) (h1 : x < p) : ((ZMod.val (x 
   rw [← this, ZMod.val_natCast, Nat.mod_eq_of_lt (by omega)]
   exact Int.toNat_of_nonneg h0
 
-theorem recoverOpsCorrect (c : Affine.Crv) (C : Ctx p a b) (M : MatchesRec c C) :
+/-- **no cofactor assumption**: a reduced pair accepted by `contains_point` whose abscissa is the abscissa of a multiple of
+`G` is that multiple or its opposite, hence a (nonsingular) point of ⟨G⟩ -/
+theorem lift_point (c : Affine.Crv) (C : Ctx p a b) (M : Matches c C) (x y : ℤ) (hx0 : 0 ≤ x) (hx1 : x < p)
+    (hc : Curve.containsPoint (crvOf c) x y = true) (hk : ∃ k : ℤ, xcOf (k • C.G) = some x) :
+    ∃ hns : (shortW (a : ZMod p) (b : ZMod p)).toAffine.Nonsingular (x : ZMod p) (y : ZMod p),
+      Affine.Point.some _ _ hns ∈ C.H := by
+  obtain ⟨k, hk⟩ := hk
+  have hmem : k • C.G ∈ C.H := C.smul_mem k
+  have heq : (shortW (a : ZMod p) (b : ZMod p)).toAffine.Equation (x : ZMod p) (y : ZMod p) := by
+    rw [Affine.equation_iff]
+    simp only [shortW, Jacobian.toAffine]
+    simp only [Curve.containsPoint, pmod, crvOf, M.cp, M.ca, M.cb, beq_iff_eq, fmod_eq_zero_iff] at hc
+    push_cast at hc
+    linear_combination hc
+  cases hR : k • C.G with
+  | zero => rw [hR] at hk; cases hk
+  | some x' y' h' =>
+    rw [hR] at hk hmem
+    have hxx : (x : ZMod p) = x' := by
+      have : ((ZMod.val x' : ℕ) : ℤ) = x := by injection hk
+      rw [← this]; simp
+    subst hxx
+    rcases Affine.Y_eq_of_X_eq heq h'.left rfl with hy | hy
+    · subst hy; exact ⟨h', hmem⟩
+    · have hns : (shortW (a : ZMod p) (b : ZMod p)).toAffine.Nonsingular (x : ZMod p) (y : ZMod p) := by
+        rw [hy]; exact (Affine.nonsingular_neg ..).mpr h'
+      refine ⟨hns, ?_⟩
+      have : Affine.Point.some _ _ hns = -(Affine.Point.some _ _ h') := by
+        rw [Affine.Point.neg_some]; congr 1
+      rw [this]; exact C.H.neg_mem hmem
+
+theorem recoverOpsCorrect (c : Affine.Crv) (C : Ctx p a b) (M : Matches c C) :
     RecoverOpsCorrect (ops c) C.G (den C) (xcOf (p := p) (a := a) (b := b)) (Valid C) where
-  toPointOpsCorrect := pointOpsCorrect c C M.toMatches
+  toPointOpsCorrect := pointOpsCorrect c C M
   containsPoint_iff x y := by
     have hpos : 0 < c.p := by rw [M.cp]; exact_mod_cast hp.out.pos
     exact containsPoint_iff_onC c hpos x y
-  mkPoint_valid x y hx0 hx1 hy0 hy1 hc := by
+  mkPoint_valid x y hx0 hx1 hy0 hy1 hc hk := by
     have hx1' : x < p := by have : (ops c).p = p := M.cp; omega
     have hy1' : y < p := by have : (ops c).p = p := M.cp; omega
-    obtain ⟨hns, hm⟩ := M.allInH x y hx0 hx1' hy0 hy1' hc
+    obtain ⟨hns, hm⟩ := lift_point c C M x y hx0 hx1' hc hk
     have hcv : OnCurve p a b (crvOf c) := ⟨M.cp, M.ca, M.cb⟩
     have hrep := pjRep_of_coords C.n2t (crvOf c) hcv x y ⟨hx0, hx1'⟩ ⟨hy0, hy1'⟩ hns hm (some c.n) false
     have hpt : PtRep p a b C.H (.jac ⟨crvOf c, x, y, 1, some c.n, false⟩) (Affine.Point.some _ _ hns) := hrep
@@ -50,13 +81,13 @@ theorem recoverOpsCorrect (c : Affine.Crv) (C : Ctx p a b) (M : MatchesRec c C) 
       rw [den_eq hpt]
       show some ((ZMod.val (x : ZMod p) : ℕ) : ℤ) = some x
       rw [val_cast_of_range hx0 hx1']
-  mkPoint_neg x y y' hx0 hx1 hy0 hy1 hz0 hz1 hc hs := by
+  mkPoint_neg x y y' hx0 hx1 hy0 hy1 hz0 hz1 hc hk hs := by
     have hP : (ops c).p = p := M.cp
     have hx1' : x < p := by omega
     have hy1' : y < p := by omega
     have hz1' : y' < p := by omega
     have hcv : OnCurve p a b (crvOf c) := ⟨M.cp, M.ca, M.cb⟩
-    obtain ⟨hns, hm⟩ := M.allInH x y hx0 hx1' hy0 hy1' hc
+    obtain ⟨hns, hm⟩ := lift_point c C M x y hx0 hx1' hc hk
     have hneg : (y' : ZMod p) = -(y : ZMod p) := by
       have : ((y + y' : ℤ) : ZMod p) = 0 := by
         rw [ZMod.intCast_zmod_eq_zero_iff_dvd]
